@@ -40,6 +40,14 @@ class MaybeConstantView {
   constexpr ValueT Read() const { return value_.Value(); }
   constexpr ValueT UncheckedRead() const { return value_.ValueOrDefault(); }
   constexpr bool Ok() const { return value_.Known(); }
+  // Generated Equals()/UncheckedEquals() methods compare structure parameters
+  // the same way they compare fields.
+  constexpr bool Equals(const MaybeConstantView &other) const {
+    return Read() == other.Read();
+  }
+  constexpr bool UncheckedEquals(const MaybeConstantView &other) const {
+    return UncheckedRead() == other.UncheckedRead();
+  }
 
  private:
   ::emboss::support::Maybe<ValueT> value_;
